@@ -15,7 +15,9 @@ import WV.Gen.Skel
   FIFO-per-sender mailbox delivery, connection attempts, handshake completion, KCM deliveries,
   selection turns one eventual call at a time, loss of either end of any link at any time —
   except of the LAST candidate of the newest generation, the property's proviso —, timer-style
-  disconnects), with at most `K = 2` links existing at the same time.  They rest on the finite
+  disconnects), with at most `K = 2` links existing at the same time, in EVERY network in which at
+  least one direction of dialling works (`Sys.ra` / `Sys.rb`: both sides can dial, only A, only B —
+  NAT, firewall, `no_listen` on the other side).  They rest on the finite
   certificates of `WV.Proofs.C11Cert` (evaluated by `native_decide`, disclosed) lifted to all runs
   by kernel-checked induction (`Cert.cert_sound`, `Cert.converge_sound`).
 * `no_undeclared_input_fails_on_current`: the full statement is FALSE for the current code — a
@@ -157,8 +159,8 @@ example : (Buf.runArr [2, 3, 1] {} []) = ({ next := 0, held := [1, 3, 2] }, []) 
 theorem inv_of_reach (s : Sys) (hr : Reach s) : inv s = true := by
   cases hr with
   | init h =>
-    simp only [inits, List.mem_cons, List.not_mem_nil, or_false] at h
-    rcases h with rfl | rfl <;> decide
+    have hall : ∀ t ∈ inits, inv t = true := by decide
+    exact hall _ h
   | step e hr he =>
     have := Certs.reach_safe _ hr e he
     unfold safeStep at this
@@ -274,6 +276,33 @@ example : (step (runFrom { cmp := .gt } witnessRun) (.kcml 0)).2 = .exn (.ntConn
     selected ends of ONE link.  (`enabledK` never lets the network kill the last candidate of the
     newest generation: the property's proviso, `killOK`.) -/
 theorem reconverge_no_trap (s : Sys) (hr : Reach s) : CanConverge s := Certs.reach_converges s hr
+
+/-- the reachability of the network never changes during a run, and in every reachable state at
+    least one direction of dialling works (the property's proviso; `inits`) -/
+theorem one_direction_reachable (s : Sys) (hr : Reach s) : s.ra = true ∨ s.rb = true := by
+  induction hr with
+  | init h =>
+    have hall : ∀ t ∈ inits, (t.ra || t.rb) = true := by decide
+    have := hall _ h
+    simpa using this
+  | step e _ he ih =>
+    have hmem := Certs.reach_mem _ (Reach.step e ‹_› he)
+    have hall : ∀ t ∈ Certs.R, (t.ra || t.rb) = true := Certs.reach_flags
+    have := hall _ hmem
+    simpa using this
+
+/-- non-vacuity for the restricted networks: only the LEADER can dial, the connection in use is lost
+    while the follower is still CONNECTING (it never read the leader's KCM), `reconnect` arrives there -/
+def afterLossLeaderDialsOnly : Sys :=
+  runFrom { cmp := .gt, rb := false }
+    [.key .A, .key .B, .vers .A, .vers .B, .dilate .A, .dilate .B, .deliver .A, .deliver .B, .deliver .A,
+     .connect .A, .hs 0, .kcmf 0, .turn1 .A, .lose .A 0, .turn1 .A, .deliver .B, .deliver .B]
+
+example : Reach afterLossLeaderDialsOnly := reach_run _ (Reach.init (by decide)) _ (by decide)
+/-- the follower answered `reconnecting` FIRST, then its new hints: the leader (FLUSHING) will use them -/
+example : afterLossLeaderDialsOnly.a.mgr = .FLUSHING ∧ afterLossLeaderDialsOnly.b.mgr = .CONNECTING ∧
+    afterLossLeaderDialsOnly.ba = [.reconnecting, .hints true] ∧ afterLossLeaderDialsOnly.rb = false := by decide
+example : CanConverge afterLossLeaderDialsOnly := reconverge_no_trap _ (reach_run _ (Reach.init (by decide)) _ (by decide))
 
 /-- non-vacuity: a reachable state right after the loss of the connection in use, noticed by the
     leader first (leader FLUSHING, `reconnect` on its way, follower still CONNECTED on the dead link) -/
